@@ -75,7 +75,8 @@ def run(ctx):
         return bm
 
     def pin(h, kind='Float', width=4):
-        return [h.tdisc == h.TI['Scalar'], h.kind == h.SK[kind], h.width == width]
+        # holes that are not symbolic in this run are 3-component vectors (so that arrays of them are arrays of vec3)
+        return [h.tdisc == h.TI['Vector'], h.vsize == 3, h.kind == h.SK[kind], h.width == width]
     plans = [('HA',), ('HB',), ('HC',)] if ctx.tier == 'quick' else [('HA', 'HB'), ('HA', 'HC'), ('HB',), ('HC',)]
     seen = {}
     opts_fixed = dict(derive_encase_host_shareable=True)
